@@ -119,6 +119,27 @@ def build_scripts(ctx, sched, bursts, tier):
             ws.append("W %d | %s | %s" % (start, " ".join(rt), " ".join(rf)))
             metas.append((pol, U, bits))
         streams.append((L, ws, metas))
+    # strong in-band FEC streams: every fate pattern under policy F1 (quick: all 2^8; thorough: a seeded 1024 of the 2^12),
+    # so that each stream recovers hundreds of isolated losses (the accuracy clause is judged from MinFecFrames on)
+    f1 = {}
+    for (pol, U, bits, toks) in sched:
+        if pol == "F1":
+            f1.setdefault(U, []).append((bits, toks))
+    for ci, c in enumerate(STRONG if tier == "thorough" else STRONG[:3]):
+        for U in (8, 16, 24):
+            items = f1.get(U, [])
+            if len(items) > 1024:
+                items = rng.sample(items, 1024)
+            tl, ntail = tail_tokens(U)
+            span = 1200 // U
+            npk = span + 5 + K + ntail + 1
+            L = "L %d %d %d %d %d %d %d %d %d %d %d %d %d %d %d %d %d" % (c[:9] + (U,) + c[9:12] + (rng.randrange(1, 1 << 30),) + c[12:14] + (npk,))
+            ws, metas = [], []
+            for (bits, toks) in items:
+                st = rng.randrange(0, span)
+                ws.append("W %d | %s | %s" % (st, " ".join(shift(toks, st) + tl), " ".join(shift(ref[(U, bits)], st))))
+                metas.append(("F1", U, bits))
+            streams.append((L, ws, metas))
     # one isolated loss at every packet position of the stream (schedule of the fate pattern 100..0 under policy PW)
     one = "1" + "0" * (K - 1)
     for ci, c in enumerate(CONV if tier == "thorough" else CONV[:2]):
@@ -219,7 +240,7 @@ def read_prints(r, trace=None):
             ratio = 1000 * sf // sp
             if OBS["worst_stream_fec_ratio_x1000"] is None or ratio > OBS["worst_stream_fec_ratio_x1000"]:
                 OBS["worst_stream_fec_ratio_x1000"] = ratio
-        if nf3 >= 20 and sp3 > 0:
+        if nf3 >= 100 and sp3 > 0:
             ratio = 1000 * sf3 // sp3
             OBS["strong_fec_streams"] += 1; OBS["strong_fec_frames"] += nf3
             if OBS["worst_strong_fec_ratio_x1000"] is None or ratio > OBS["worst_strong_fec_ratio_x1000"]:
